@@ -2,7 +2,8 @@
 
 Explorer H, structured histories:  mat* . enc(other)* . roundtrip
   mat(X)      materialise one of 14 lazily derived quantities on the grid under test
-  enc(o, f)   encode one of two *other* live grids (a larger one with edges built, a smaller one without) as f
+  enc(o, f)   encode one of two *other* live grids (a larger one with edges built, a smaller one without), or the
+              grid under test itself, as f
   roundtrip   encode the grid under test as fmt, check the dataset's self-consistency, re-open it directly and
               through a NetCDF file, compare faces by position.
 """
@@ -22,7 +23,7 @@ from vf.oracle import faces as F
 ID = "C07"
 RULE = (
     "histories mat-set . enc(other)-sequence . roundtrip(fmt, via): mat-set = every subset of size <= k of 14 derived quantities and the full set; "
-    "enc-sequence = every sequence of length <= j over {big grid with edges, small grid} x {ugrid, exodus, scrip}; fmt in {ugrid, exodus, scrip}; "
+    "enc-sequence = every sequence of length <= j over {big grid with edges, small grid, the grid under test itself} x {ugrid, exodus, scrip}; fmt in {ugrid, exodus, scrip}; "
     "via in {dataset, NetCDF file}; on grids {mixed 3..6-gon patch, cube, cube with split face (3/4 mix), one face of every size 3..8, antimeridian strip, "
     "xyz-bearing source}. non-trivial = mixed-size grid or non-empty prefix; distinct = (grid, mat-set, enc-sequence, fmt, via)"
 )
@@ -42,7 +43,7 @@ MATS = [
 ]
 FMTS = ["ugrid", "exodus", "scrip"]
 GRIDS = ["mixedpatch", "cube", "cubesplit", "sizes38", "amstrip", "xyz:prism"]
-OTHERS = ["big", "small"]
+OTHERS = ["big", "small", "self"]
 
 
 def _grid(name):
@@ -138,7 +139,7 @@ def run_history(gname, mats, encs, fmt, tmpdir):
             return [("mat", "c07:mat:%s:raises:%s" % (MATS[i], type(e).__name__), repr(e))]
     for o, f in encs:
         if o not in others:
-            others[o] = _other(o)
+            others[o] = g if o == "self" else _other(o)
         try:
             others[o].to_xarray(f)
         except Exception:
